@@ -810,6 +810,10 @@ bool TimeZoneInfo::Load(ZoneInfoSource* zip) {
       // No one does this in practice, and we depend on it in MakeTime().
       if (!Transition::ByCivilTime()(transitions_[i - 1], tr))
         return false;  // out of order
+      // Transitions generated from the future specification must also be
+      // ordered by time (those read from the data were checked above).
+      if (!Transition::ByUnixTime()(transitions_[i - 1], tr))
+        return false;  // out of order
     }
   }
 
